@@ -10,7 +10,15 @@
         the single segment 0,0 -> c,d placed at origin a,b), grp (kind SP path only);
         every kind recalculates the receiving group and its ancestors;
         path = a dash for the slide itself or child indices joined by dots;
-        output: the whole slide after every addition, ending at the first error.
+        further operations of a group history:
+        set SP path SP f SP v      f in l t w h: member.left / top / width / height = v
+            on the EXISTING member at that path (a shape or a group; for a group this
+            writes a:off / a:ext only and recalculates nothing);
+        xf SP path SP x SP y SP cx SP cy SP chx SP chy SP chcx SP chcy      the a:xfrm of
+            the group at that path as another producer wrote it (all eight numbers,
+            within the schema ranges, otherwise the case is malformed);
+        reopen      the deck is saved and loaded again (the model keeps every number);
+        output: the whole slide after every operation, ending at the first error.
     ff | sx | sy | xscale | yscale | ox | oy | op1 ...
         sx sy and vertex coordinates are exact rationals n/d (the value Python
         round() receives), scales are i SP z or f SP m SP e (the float m * 2^e),
@@ -40,6 +48,13 @@ Definition k_M : str := [77]%N.  (* M *)
 Definition k_C : str := [67]%N.  (* C *)
 Definition k_G : str := [71]%N.  (* G *)
 Definition k_dash : str := [45]%N.  (* - *)
+Definition k_set : str := [115; 101; 116]%N.  (* set *)
+Definition k_xf : str := [120; 102]%N.  (* xf *)
+Definition k_reopen : str := [114; 101; 111; 112; 101; 110]%N.  (* reopen *)
+Definition k_l : str := [108]%N.  (* l *)
+Definition k_t : str := [116]%N.  (* t *)
+Definition k_w : str := [119]%N.  (* w *)
+Definition k_h : str := [104]%N.  (* h *)
 Definition w_okw : str := [111; 107]%N.  (* ok *)
 Definition w_sp : str := [32]%N.
 Definition c_space : N := 32%N.
@@ -172,33 +187,65 @@ Definition ff_leaf (a b c d : Z) : res shape :=
 Definition cxn_leaf (bx by_ ex ey : Z) : shape :=
   let c := add_cxn bx by_ ex ey in Leaf (c_x c) (c_y c) (c_cx c) (c_cy c).
 
-(** path and the member to add (or the exception building it raises). *)
-Definition gcmd := (list nat * res shape)%type.
+(** One operation of a group history: an addition (path and the member to add, or the
+    exception building it raises), or one of the other operations of [hop]. *)
+Inductive gcmd :=
+| CAdd (p : list nat) (new : res shape)
+| COp (op : hop).
+
+Definition parse_fld (s : str) : option fld :=
+  if str_eqb s k_l then Some FLeft
+  else if str_eqb s k_t then Some FTop
+  else if str_eqb s k_w then Some FWidth
+  else if str_eqb s k_h then Some FHeight
+  else None.
 
 Definition parse_gcmd (s : str) : option gcmd :=
   match toks s with
+  | [k] => if str_eqb k k_reopen then Some (COp HReopen) else None
   | [k; p] =>
       if str_eqb k k_grp then
-        match parse_path p with Some p => Some (p, Ok (member_shape MGroup)) | None => None end
+        match parse_path p with Some p => Some (CAdd p (Ok (member_shape MGroup))) | None => None end
+      else None
+  | [k; p; f; v] =>
+      if str_eqb k k_set then
+        match parse_path p, parse_fld f, parse_Z v with
+        | Some p, Some f, Some v => Some (COp (HSet p f v))
+        | _, _, _ => None
+        end
       else None
   | [k; p; a; b; c; d] =>
       match parse_path p, parse_Z a, parse_Z b, parse_Z c, parse_Z d with
       | Some p, Some a, Some b, Some c, Some d =>
-          if str_eqb k k_sp || str_eqb k k_tb || str_eqb k k_pic then Some (p, Ok (Leaf a b c d))
-          else if str_eqb k k_cxn then Some (p, Ok (cxn_leaf a b c d))
-          else if str_eqb k k_ff then Some (p, ff_leaf a b c d)
+          if str_eqb k k_sp || str_eqb k k_tb || str_eqb k k_pic then Some (CAdd p (Ok (Leaf a b c d)))
+          else if str_eqb k k_cxn then Some (CAdd p (Ok (cxn_leaf a b c d)))
+          else if str_eqb k k_ff then Some (CAdd p (ff_leaf a b c d))
           else None
       | _, _, _, _, _ => None
       end
+  | [k; p; x; y; cx; cy; chx; chy; chcx; chcy] =>
+      if str_eqb k k_xf then
+        match parse_path p, opt_all (map parse_Z [x; y; cx; cy; chx; chy; chcx; chcy]) with
+        | Some p, Some [x; y; cx; cy; chx; chy; chcx; chcy] =>
+            (* the document must stay schema-valid: a:off, a:chOff are ST_Coordinate,
+               a:ext, a:chExt are ST_PositiveCoordinate *)
+            if coord_ok x && coord_ok y && pos_ok cx && pos_ok cy
+               && coord_ok chx && coord_ok chy && pos_ok chcx && pos_ok chcy
+            then Some (COp (HFrame p (mkG x y cx cy chx chy chcx chcy)))
+            else None
+        | _, _ => None
+        end
+      else None
   | _ => None
   end.
 
 (** The driver first walks the path (IndexErr), then performs the addition. *)
 Definition gcmd_step (sl : slide) (c : gcmd) : res slide :=
   match c with
-  | (p, Ok new) => slide_add p new sl
-  | (p, Err e) =>
+  | CAdd p (Ok new) => hstep sl (HAdd p new)
+  | CAdd p (Err e) =>
       match slide_add p (Leaf 0 0 0 0) sl with Err IndexErr => Err IndexErr | _ => Err e end
+  | COp op => hstep sl op
   end.
 
 Fixpoint gcmd_trace (sl : slide) (cs : list gcmd) : list (res slide) :=
